@@ -305,8 +305,12 @@ fn stmt_json(s: &syn::Stmt) -> Value {
                 syn::Item::Use(_) => json!({"kind":"use"}),
                 _ => json!({"kind":"other"}),
             }}),
-        syn::Stmt::Macro(m) => json!({"k":"macro","path":toks(&m.mac.path).replace(' ', ""),"tokens":m.mac.tokens.to_string(),
-            "attrs":attrs_json(&m.attrs),"span":sp_of(m)}),
+        syn::Stmt::Macro(m) => {
+            let args: Option<Vec<Value>> = m.mac.parse_body_with(syn::punctuated::Punctuated::<syn::Expr, syn::Token![,]>::parse_terminated)
+                .ok().map(|p| p.iter().map(expr_json).collect());
+            json!({"k":"macro","path":toks(&m.mac.path).replace(' ', ""),"tokens":m.mac.tokens.to_string(),
+                "args": args, "attrs":attrs_json(&m.attrs),"span":sp_of(m)})
+        }
     }
 }
 
